@@ -1554,7 +1554,8 @@ fn main() {
         Some("run") => {
             let seed: u64 = args.get(2).and_then(|s| s.parse().ok()).unwrap_or(1);
             let thorough = args.get(3).map(|s| s == "thorough").unwrap_or(false);
-            let graphs: u64 = if thorough { 10_000 } else { 500 };
+            // the class representatives first, then random graphs
+            let graphs: u64 = boundary_count() + if thorough { 10_000 } else { 1_500 };
             let seed_s = seed.to_string();
             use rotov_harness::worker::{Ended, run_batches};
             run_batches(
